@@ -20,6 +20,11 @@ RULE = ("one case in five: chains of 1-5 diffs on a RocksDB compiled (builder or
         "emptied, one of two equal values removed, a removal of an absent value) with the lines of that key separated by "
         "lines of other keys, or reversed, sorted, shuffled; the reference is a fresh RocksDB compilation of B for the "
         "first diff of a chain and one shape case in six, else the implementation's codec called line by line on B; "
+        "plus the huge-fail class: a small database and a generated diff of rdb.DefaultBatchSize + 500..3500 additions "
+        "(and deletions of the base rows) that ONE line makes inapplicable (rejected line, unknown operation, deletion of an "
+        "absent key or value), both key layouts; observed: error and full dump after = full dump before (compared in Go; "
+        "the model's outcome for such a diff is given by theorems C08_failing_line_anywhere_is_noop / "
+        "C08_absent_delete_anywhere_is_noop, Coq evaluates their hypotheses on the offending line); "
         "non-trivial = distinct (database, diff) step with at least one record added or deleted, or a failing step")
 TRUSTED_BASE = [
     "the codec (Codec.ConvertLn) is a parameter of model and theorems; the harness records its output on every argument of a diff line",
@@ -51,11 +56,21 @@ def cstep(s):
                                            cbool(s["expect_ok"]), cdump(s.get("after")), fresh)
 
 
+def ctable(tab):
+    return clist([cpair(cbytes(t["arg"]), copt(clist([ckv(p) for p in (t["recs"] or [])]) if t["ok"] else None)) for t in (tab or [])])
+
+
 def to_coq(c):
+    if c.get("kind") == "huge":
+        return "mkhuge %s %s %s %s %s %s %s %s %s" % (cbytes(c["bad"]), ctable(c.get("table")), cdump(c.get("bad_pre")),
+                                                    cbool(c["readable"]), cbool(c["added"]), cN(c["records"]), cN(c["batch_size"]),
+                                                    cN(c["err"]), cbool(c["unchanged"]))
     return "mk %s %s" % (cdump(c.get("db0")), clist([cstep(s) for s in c["steps"]]))
 
 
 def nontrivial(c):
+    if c.get("kind") == "huge":
+        return [c["class"], c["cfg"], c["with_dels"], c["post"], c["extra"]] if c["records"] > c["batch_size"] else None
     keys = []
     for s in c["steps"]:
         if s["err"] != 0 or any(t["ok"] and t["recs"] for t in (s.get("table") or [])):
@@ -64,6 +79,8 @@ def nontrivial(c):
 
 
 def case_class(c):
+    if c.get("kind") == "huge":
+        return "%s:%s:%s" % (c["class"], c["cfg"], "unchanged" if c["unchanged"] else "CHANGED")
     if c.get("class", "").startswith("shape:"):
         return c["class"] + ":" + c["cfg"]
     fails = sum(1 for s in c["steps"] if not s["expect_ok"])
@@ -71,6 +88,13 @@ def case_class(c):
 
 
 def shrink_candidates(c):
+    if c.get("kind") == "huge":
+        # fewer records are not the point of this class; only the simpler variants of the same diff
+        if c.get("post"):
+            yield dict(c, post=0)
+        if c.get("with_dels"):
+            yield dict(c, with_dels=False)
+        return
     st = c["steps"]
     # drop trailing steps, then leading successful steps cannot be dropped (they define the state)
     for n in range(1, len(st)):
